@@ -10,6 +10,8 @@ CONSTANTS
   RejectDelta = 4
   MaxHeight = 50
   MaxNow = 50
+  Margins = {0, 1}
+  ExpiredOffs = {1}
   KeysendQuirk = FALSE
   MaxEvents = 0
 VIEW View
